@@ -86,6 +86,15 @@ SortKeys(S) == SetToSortSeq(S, BytesLess)
 
 Concat(seqs) == FlattenSeq(seqs)
 
+\* bytes split at newlines / joined with a separator (recursion depth = number of lines)
+RECURSIVE SplitNl(_)
+SplitNl(bs) ==
+    IF \A i \in 1 .. Len(bs) : bs[i] # 10 THEN <<bs>>
+    ELSE LET i == CHOOSE j \in 1 .. Len(bs) : bs[j] = 10 /\ \A kx \in 1 .. j - 1 : bs[kx] # 10 IN
+         <<SubSeq(bs, 1, i - 1)>> \o SplitNl(SubSeq(bs, i + 1, Len(bs)))
+RECURSIVE JoinWith(_, _)
+JoinWith(ls, sep) == IF Len(ls) = 1 THEN ls[1] ELSE ls[1] \o sep \o JoinWith(Tail(ls), sep)
+
 RECURSIVE DecNat(_)
 DecNat(n) == IF n < 10 THEN <<48 + n>> ELSE DecNat(n \div 10) \o <<48 + (n % 10)>>
 
